@@ -124,6 +124,32 @@ def gen_spec(rs, p=None):
             return dct
         sub = side()
         prod = side()
+        if p.get("templates", 0.0) and rs.chance(p["templates"]):
+            # structured reactions, so that non-trivial conservation laws exist
+            a, b, c = (rs.choice(labels), rs.choice(labels), rs.choice(labels))
+            tpl = rs.choice(["iso", "assoc", "dimer", "cat", "exch"])
+            if tpl == "iso":
+                sub, prod = {a: 1}, {b: 1}
+            elif tpl == "assoc":
+                sub, prod = {}, {c: 1}
+                for l in (a, b):
+                    sub[l] = sub.get(l, 0) + 1
+            elif tpl == "dimer":
+                sub, prod = {a: 2}, {b: 1}
+            elif tpl == "cat":
+                sub, prod = {}, {}
+                for l in (a, c):
+                    sub[l] = sub.get(l, 0) + 1
+                for l in (b, c):
+                    prod[l] = prod.get(l, 0) + 1
+            else:
+                sub, prod = {}, {}
+                for l in (a, b):
+                    sub[l] = sub.get(l, 0) + 1
+                for l in (b, b):
+                    prod[l] = prod.get(l, 0) + 1
+            if p["max_order"] < 2 and sum(sub.values()) > p["max_order"]:
+                sub, prod = {a: 1}, {b: 1}
         if not sub and not prod:
             prod = {rs.choice(labels): 1}
 
@@ -485,6 +511,20 @@ def gen_script(rk, spec, kind, p=None):
         lam = stiffness(m)
         c = rk.loguniform(*p.get("courant", (0.01, 0.15)))
         dt = c / lam if lam > 0 else rk.loguniform(0.01, 1.0)
+        # stability pre-check with the reference Euler model: keep the planned run bounded and non-negative
+        import numpy as np
+        bound = 50.0 * (float(np.abs(m.x0).max()) + 10.0)
+        for _ in range(6):
+            x = m.x0.copy()
+            ok = True
+            for _k in range(int(steps * 1.4) + 3):
+                x = m.euler_step(x, dt)
+                if not np.all(np.isfinite(x)) or np.abs(x).max() > bound or x.min() < -1e-6:
+                    ok = False
+                    break
+            if ok:
+                break
+            dt *= 0.2
         t_end = steps * dt
         unit = dt
     policy = p.get("policy") or rk.wchoice([("on_t_sample", 4), ("on_iteration", 2), ("on_interval", 2),
@@ -517,6 +557,12 @@ def gen_script(rk, spec, kind, p=None):
     if rk.chance(0.1):
         seed = rk.bits(32)  # above int range: wraps in c_int
     isp = p.get("isp") or rk.wchoice([("auto", 5), ("none", 1), ("redist", 1), ("Poisson", 1)])
+    if kind != "euler" and isp == "none":
+        # a stochastic engine fed an unprocessed state is only meaningful when that state already consists of
+        # non-negative integers (otherwise molecule counts go negative and propensities lose their meaning)
+        import numpy as _np
+        if not _np.all(m.x0 == _np.floor(m.x0)):
+            isp = "auto"
     return {"kind": kind, "dt": dt, "t_sample": ts, "t_max": t_max, "policy": policy, "interval": interval,
             "seed": seed, "isp": isp, "ongrid": ongrid, "steps": steps}
 
